@@ -1,9 +1,5 @@
 // ---- prelude/std_extra.rs : assumed specifications of std functions vstd does not cover -----------
-pub assume_specification<T: Clone>[<[T]>::to_vec](s: &[T]) -> (r: Vec<T>)
-    ensures
-        r@.len() == s@.len(),
-        forall|i: int| 0 <= i < s@.len() ==> cloned::<T>(s@[i], #[trigger] r@[i]),
-        (forall|a: T, b: T| #[trigger] cloned::<T>(a, b) ==> a == b) ==> r@ == s@;
+//@include prelude/to_vec.rs
 
 // N15: `m.get_mut(k)` on a std HashMap (vstd has no specification for get_mut)
 #[verifier::external_body]
